@@ -387,9 +387,9 @@ func c11JoinOnSuite(r *Result, rng *rand.Rand, tier string) {
 	}
 	var ops [][]interface{}
 	var pend []pending
-	fams := []string{"S", "C", "U"}
+	fams := []string{"S", "C", "U", "R"}
 	for i := 0; i < n; i++ {
-		f := c11Families[fams[i%3]]
+		f := c11Families[fams[i%4]]
 		pts := f.parentTables()
 		t := pts[rng.Intn(len(pts))]
 		nodes := f.genNodes(rng, t, 0, true, 6, true)
